@@ -271,7 +271,7 @@ func genStruct(t *rapid.T, c TypeCfg, depth int, embDepth int) *TypeSpec {
 	if len(c.FieldNames) > 0 {
 		names = c.FieldNames
 	}
-	if c.Wide && depth <= 1 && rapid.IntRange(0, 7).Draw(t, "wide") == 0 {
+	if c.Wide && depth <= 1 && rapid.IntRange(0, 4).Draw(t, "wide") == 0 {
 		n = rapid.IntRange(8, 18).Draw(t, "nwide")
 		names = wideNames
 	}
